@@ -30,11 +30,13 @@ def c04_models(tier, clock="after_newdate", order="by_time", maxopt=None):
     if maxopt is not None:
         return [env_model("deliver", G[:3], cs, [], maxopt, [0, L], folds, modes, maxcalls=4,
                           invariants=C04_INV, clock=clock, order=order)]
+    # every other stream: the Transmitter first serves another environment with the first half of the data (and is reset
+    # once), is then extended with the remaining timesteps and events, and only then handed to the environment under test
     if tier == "quick":
         return [env_model("deliver", G[:3], cs, [], 3, [0, L], folds, modes, maxcalls=4,
-                          invariants=C04_INV, clock=clock, order=order)]
+                          invariants=C04_INV, clock=clock, order=order, reuse="extend")]
     return [env_model("deliver", G[:3], cs, [], 5, [0, L], folds, modes, maxcalls=4,
-                      invariants=C04_INV, clock=clock, order=order)]
+                      invariants=C04_INV, clock=clock, order=order, reuse="extend")]
 
 
 def many_events_model(clock="after_newdate", order="by_time"):
@@ -155,6 +157,13 @@ def c15_models(tier):
     ms.append(env_model("folds-live", G[:4], cs[:4] + cs[n:], [1], 2, [0], folds[:2], [(False, -1)], eplens=(0, 1, 2),
                         maxcalls=6, reset_anywhere=False, invariants=["ExactLength"], properties=["EpisodeEnds"],
                         specification="FairSpec"))
+    # a long fold (1060 event-bearing timesteps, an episode of 2 decisions fits at 1058 positions) with exponentially
+    # weighted start sampling: every position is still offered, with a usable probability
+    nl = 1060
+    gl = [36000 + DAY * k for k in range(nl)]
+    cl = [cand(gl[k], "q", "A", 100, 100) for k in range(nl)]
+    ms.append(env_model("long-fold", gl, cl, range(1, nl + 1), 0, [0], [FOLD_ALL], [(True, -1)], eplens=(2,),
+                        maxcalls=1, reset_anywhere=False, invariants=["StartSetExact"], start_stride=151))
     return ms
 
 
@@ -192,6 +201,17 @@ def c17(tier, seed):
     rep.assumptions = list(ASSUME) + ["malformed classes: wrong shape, below / above the bounds, NaN, invalid or non-integer "
                                       "index; spaces: Box weights, Box with a cash entry, Box in numbers of contracts, Discrete"]
     run_models(rep, c17_models(tier), clauses_of("C17"))
+    # "executed as the allocation it denotes" with an account behind it (EnvFull.tla): a space declared with a no-trade
+    # margin, actions whose entries are small next to what is held - the position after each step is the one the weight
+    # vector denotes (the margin is about the size of the CHANGE, not of the target)
+    from . import envfull_check as ef
+    from fractions import Fraction as F
+    grid = ef.G[:4]
+    ev = ef.bars(grid, {"S1": [8, 8, 16, 8], "F4": [8, 16, 8, 8]}, 0)
+    tg = [{"S1": F(1, 2)}, {"S1": F(1, 32)}, {"S1": F(1, 2), "F4": F(-1, 32)}, {"F4": F(1, 2)}, {}]
+    m = ef.full_model("margin-space", ["S1", "F4"], ["S1", "F4"], grid, ev, tg, lats=(0,), delays=(0, 1), fees="free",
+                      thr=F(1, 16), maxsteps=3, invariants=["LedgerReplay"])
+    ef.run_models(rep, [m], {"pos", "track_trades"})
     return rep.finish()
 
 
